@@ -93,6 +93,10 @@ impl<'a> Gen<'a> {
         if self.feat.metatables && self.rng.chance(2, 3) {
             self.emit_obj_metatable();
         }
+        if self.rng.chance(1, 2) {
+            self.line("local rec0 = { x = 1, s = 'r' }");
+            self.declare("rec0", Ty::Rec);
+        }
         let n = 3 + self.rng.below(8);
         for _ in 0..n {
             self.statement();
@@ -202,6 +206,8 @@ impl<'a> Gen<'a> {
             self.line("OBJ_MT.__idiv = function(a, b) emit('__idiv') return 11 end");
         }
         self.line("OBJ_MT.__newindex = function(t, k, v) emit('__newindex', k, v) end");
+        self.line("local obj0 = setmetatable({}, OBJ_MT)");
+        self.declare("obj0", Ty::Obj);
     }
 
     // ---- expressions
@@ -703,6 +709,12 @@ impl<'a> Gen<'a> {
             self.emit_stmt();
             return;
         }
+        if matches!(self.in_loop.last(), Some(LoopKind::While) | Some(LoopKind::For) | Some(LoopKind::Repeat))
+            && self.rng.chance(1, 6)
+        {
+            self.break_or_continue();
+            return;
+        }
         let choice = self.rng.below(40);
         match choice {
             0..=6 => self.emit_stmt(),
@@ -750,7 +762,7 @@ impl<'a> Gen<'a> {
                         self.line(&format!("{}['x'] = {}", t, v));
                     }
                     self.used.insert("field-assign");
-                } else if let Some(t) = self.find_var(Ty::Arr) {
+                } else if let (Some(t), true) = (self.find_var(Ty::Arr), self.in_loop.iter().all(|l| *l == LoopKind::None)) {
                     let v = self.expr(Ty::Int, 2);
                     self.line(&format!("{}[#{} + 1] = {}", t, t, v));
                     self.used.insert("index-assign");
@@ -1146,7 +1158,7 @@ impl<'a> Gen<'a> {
         self.in_loop.pop();
         self.pop_scope();
         self.line("end");
-        if kind != 1 || self.scopes.len() == 1 {
+        if (kind != 1 || self.scopes.len() == 1) && !recursive {
             self.declare(&visible_name, Ty::Fn1);
         }
         if recursive {
